@@ -16,18 +16,22 @@ import g2codec as G  # noqa: E402
 META = {
     "text": "Theorems (Coq, no axioms): for the block identifier input (12 fields), the signed header input (11), the transaction "
             "identifier input (10) and the signed transaction input (9), changing any single field changes the byte string (hence the "
-            "identifier unless the hash collides) and the signed inputs omit exactly Sign; merkle root binding for equal-length lists "
-            "(or a collision), with the list length NOT bound (F5, refuted for every hash); receipt store round trips V1/V2 and receipt "
-            "list round trips with/without bloom under a stated well-formedness predicate, the merkle leaf input of each format version "
-            "covers each consensus field (V1 drops GasUsed/FeeDelegation: F17); chain id round trip when magic/consensus contain no '/' "
-            "(F6 refuted otherwise); hardfork version monotone in the height and compatibility => same versions up to the checked height. "
+            "identifier unless the hash collides) and the signed inputs omit exactly Sign; with equal field lengths the inputs are "
+            "injective (without: refuted, no length prefixes are written); merkle / transaction / receipts root binding for lists of "
+            "equal length (or a collision), the list length NOT bound (F5, refuted for every hash); receipt store round trips V1/V2 "
+            "and receipt-list round trips with/without bloom under a stated well-formedness predicate; the merkle leaf input of each "
+            "format version determines every field that version commits to (V1 has no GasUsed/FeeDelegation: F17 refuted witnesses); "
+            "chain id round trip when magic/consensus contain no '/' (F6 refuted otherwise); hardfork version monotone in the height, "
+            "CheckCompatibility => same versions up to the checked height, Version consistent with IsVnFork for validated configs. "
             "The field lists the encoders are defined over are proved equal (vm_compute) to the lists extracted from the Go structs and "
-            "writer functions on every run; the encoders are compared byte-exactly with the real writer functions on random and "
-            "single-field-mutated inputs on every run.",
+            "writer functions on every run; the encoders/decoders are compared byte-exactly with the real functions on corpus, random, "
+            "single-field-mutated and ill-formed inputs on every run, together with direct predicates on the implementation.",
     "note": "Trusted: Coq kernel/vm_compute; gen_fieldlists (go/parser) translator; Go engines and case generator; SHA-256 is a Section "
-            "variable in the theorems (collision disjunct) and an executable Gallina SHA-256 (checked against Go's on every run) in the "
-            "correspondence; the bloom filter and protobuf/gob are opaque bytes; known findings F5, F6, F17 are reproduced on the real "
-            "code each run.",
+            "variable in the theorems (collision disjunct) and an executable Gallina SHA-256 in the correspondence; bloom filter, "
+            "protobuf and gob are opaque bytes (genesis info round trip is observed on the implementation only); the level-list merkle "
+            "model is compared with the literal array algorithm by computation (sizes 0..40) and with Go each run, not by a general "
+            "proof; CumulativeFeeUsed (never set by the node) must be empty for the receipt round trips (refuted otherwise, latent); "
+            "known findings F5, F6, F17 are reproduced on the real code each run.",
     "technique": "Coq proofs over Gallina codec models + go/parser field-list translator + vm_compute byte-exact correspondence",
 }
 
@@ -55,6 +59,15 @@ def run(ctx):
     pr = ctx.prove(extra_targets=G.EXTRA_TARGETS)
     ctx.notes.append("timing: translator %.1fs, proof build (incl. waiting for the shared coq lock) %.1fs" % (t0 - ctx.t0, time.time() - t0))
 
+    if ctx.tier == "thorough" and pr["ok"]:
+        # independent re-check of the compiled property file and its dependency cone
+        with vf.Lock("coq"):
+            rc, out = vf.sh(["coqchk", "-silent", "-o", "-Q", vf.COQ, "Verif", "Verif.Properties.C19"], cwd=vf.COQ, timeout=1500)
+        if rc != 0 or "Axioms: <none>" not in " ".join(out.split()):
+            pr["ok"], pr["broken"] = False, "coqchk"
+            pr["log"] += out[-2000:]
+        else:
+            ctx.notes.append("coqchk -silent -o Verif.Properties.C19: no axioms, no assumed positivity/guard/type-in-type")
     st = G.State(ctx)
     G.run_types_engine(ctx, st)
     for fam in G.EXTRA_FAMILIES:
